@@ -95,11 +95,11 @@ type c03Case struct {
 func c03(args []string) {
 	c := chk.New("C03", "fault_enumeration", args)
 	c.Build(false)
-	c.Rule("graph shapes (chain, diamond, 2-output task with two consumers, parameter fan of 6 tasks, task with additional files; commands and Go functions; plain / nested / ../ paths) x crash points of every task enumerated from a dry run's event log x in-command group kills x kills at logical trace instants x kills at the instant a large output becomes visible at its final path (plain, parent-relative and absolute paths); protocol per case: (1) crashed run, (2) if temp directories are left: re-run without cleanup must stop with non-zero status and finalize nothing wrong, (3) remove temp directories and FIFOs, re-run: must succeed, yield exactly the uninterrupted file set and bytes, and must not re-execute tasks whose outputs were already final (no start event, same inode and mtime), (4) thorough: the recovery run is itself crashed and recovered; one topology has a task whose declared output is a directory, one has tasks whose outputs are legitimately empty files, one zips two differently tagged branches, one has a process whose name is 205 bytes long, one gathers through a Concatenator with GroupByTag, one has a task with an out-port that exists through SetOut only (the command names that file itself). distinct_nontrivial = distinct (shape, path shape, kind, crash instant) whose crash fired, classified by the pre-recovery state (leftovers / partially finalized / clean)")
+	c.Rule("graph shapes (chain, diamond, 2-output task with two consumers, parameter fan of 6 tasks, task with additional files; commands and Go functions; plain / nested / ../ paths) x crash points of every task enumerated from a dry run's event log x in-command group kills x kills at logical trace instants x kills at the instant a large output becomes visible at its final path (plain, parent-relative and absolute paths); protocol per case: (1) crashed run, (2) if temp directories are left: re-run without cleanup must stop with non-zero status and finalize nothing wrong, (3) remove temp directories and FIFOs, re-run: must succeed, yield exactly the uninterrupted file set and bytes, and must not re-execute tasks whose outputs were already final (no start event, same inode and mtime), (4) thorough: the recovery run is itself crashed and recovered; one topology has a task whose declared output is a directory, one has tasks whose outputs are legitimately empty files, one zips two differently tagged branches, one has a process whose name is 205 bytes long, one gathers through a Concatenator with GroupByTag, one has tools that restore an old modification time on their outputs, one has a task with an out-port that exists through SetOut only (the command names that file itself). distinct_nontrivial = distinct (shape, path shape, kind, crash instant) whose crash fired, classified by the pre-recovery state (leftovers / partially finalized / clean)")
 	c.Assume("cleanup = removing every _scipipe_tmp* directory and *.fifo below the working directory (what the library's error message asks for)", "audit-only leftovers (x.audit.json without x) are not temp directories and stay")
 	rng := c.Rand("c03")
 	var tcs []topoCase
-	for _, k := range []string{"chain", "diamond", "twoout", "params", "extra", "concat", "dirout", "tagzip", "emptyout", "implicit", "longname", "concatgroup"} {
+	for _, k := range []string{"chain", "diamond", "twoout", "params", "extra", "concat", "dirout", "tagzip", "emptyout", "implicit", "longname", "concatgroup", "oldmtime"} {
 		for _, sh := range []gen.PathShape{gen.ShapePlain, gen.ShapeNested, gen.ShapeParent} {
 			for _, g := range []bool{false, true} {
 				if k == "longname" && sh != gen.ShapePlain {
